@@ -98,38 +98,26 @@ theorem xrefAndTrailer_stream {id : ObjId} {ibs : Bytes} (dct : Dict) (size : In
   unfold xrefAndTrailer
   simp only [h1, xrefAndTrailer.xrefStreamAlt, h2, h3]
 
-/-- **Whole files (cross-reference-stream style, one revision, no object streams), every
-spelling.**  The file: `%PDF-` version EOL, ANY body, an `/XRef` stream object in any spelling of
-the indirect-object grammar — dictionary with integer `Size`, `W [w1 w2 w3]` (any widths, not all
-zero), `Index` naming the subsections (or absent), no `Filter`, no `Prev`, no `Encrypt`; data =
-the reference encoding of well-formed rows of ANY type —, ANY bytes (`sp7`), the
-`startxref` section stating the offset of that object, `%%EOF`.  If every number the rows bind is
-bound by a type-1 row and DEFINED by the file at the bound offset, `Reader::read` succeeds and
-the document has the version text, the stream dictionary without `Length`/`W`/`Index` as its
-trailer, and EXACTLY the objects the file defines. -/
-theorem loadDoc_complete_stream {id : ObjId} {ibs : Bytes} (ver e0 body : Bytes) (dct : Dict) (size : Int)
-    (w1 w2 w3 : Nat) (subs : List SSub) (sp7 e1 s1 ds s2 e2 post : Bytes) (val : Nat → Nat × Obj)
+/-- the five facts about a file of the cross-reference-stream style that `Reader::read` needs
+before it loads the objects -/
+theorem streamFile_parts {id : ObjId} {ibs : Bytes} (ver e0 body : Bytes) (dct : Dict) (size : Int)
+    (w1 w2 w3 : Nat) (subs : List SSub) (sp7 e1 s1 ds s2 e2 post : Bytes)
     (hv : ∀ b ∈ ver, b < 128 ∧ notEol b = true) (he0 : IsEol e0)
     (hX : DerivesIndirect id (.stream dct (encodeSubs w1 w2 w3 subs)) ibs)
     (hF : dct.has FILTER = false) (hS : dct.get SIZE = some (.int size))
     (hW : dct.get W_KEY = some (.arr [.int w1, .int w2, .int w3])) (hI : IndexDenotes dct size subs)
     (hok : SubsOk w1 w2 w3 subs) (hrows : 0 < totalRows subs) (hwid : 0 < w1 + w2 + w3)
-    (hprev : (((dct.remove LENGTH).remove W_KEY).remove INDEX).get PREV = none)
-    (henc : (((dct.remove LENGTH).remove W_KEY).remove INDEX).get ENCRYPT = none)
     (he1 : IsEol e1) (hs1 : AllSp s1) (hds : DerivesNat (PDF_KW ++ (ver ++ (e0 ++ body))).length ds)
     (hs2 : AllSp s2) (he2 : IsEol e2) (hpost : IsFileEnd post)
     (hshort : (STARTXREF ++ (e1 ++ (s1 ++ (ds ++ (s2 ++ e2))))).length ≤ 25)
-    (hmax : (streamTableOf subs).maxId + 1 < 4294967296)
     (file : Bytes)
     (hfile : file = (PDF_KW ++ (ver ++ (e0 ++ body))) ++ (ibs ++ (sp7 ++ (STARTXREF ++ (e1 ++ (s1 ++ (ds ++
-      (s2 ++ (e2 ++ (EOF_MARK ++ post))))))))))
-    (hdef : ∀ k e, (streamTableOf subs).get k = some e →
-      ∃ off, e = .normal off (val k).1 ∧ DefinesAt file off k (val k).1 (val k).2) :
-    ∃ L, loadDoc file = .ok L ∧ L.version = ver ∧
-      L.trailer = ((dct.remove LENGTH).remove W_KEY).remove INDEX ∧
-      L.xrefStart = (PDF_KW ++ (ver ++ (e0 ++ body))).length ∧ L.maxId = (streamTableOf subs).maxId ∧
-      (∀ k e, (streamTableOf subs).get k = some e → L.objects.get (k, (val k).1) = some (val k).2) ∧
-      (∀ id : ObjId, ((streamTableOf subs).get id.1 = none ∨ id.2 ≠ (val id.1).1) → L.objects.get id = none) := by
+      (s2 ++ (e2 ++ (EOF_MARK ++ post)))))))))) :
+    findFrom PDF_KW (file.length + 1) file 0 = some 0 ∧ pHeader file = some ver ∧
+    getXrefStart file = some (PDF_KW ++ (ver ++ (e0 ++ body))).length ∧
+    (PDF_KW ++ (ver ++ (e0 ++ body))).length ≤ file.length ∧
+    xrefAndTrailer (file.drop (PDF_KW ++ (ver ++ (e0 ++ body))).length) =
+      .ok (streamTableOf subs, (size % (U32 : Int)).toNat, ((dct.remove LENGTH).remove W_KEY).remove INDEX) := by
   have hlen : (PDF_KW ++ (ver ++ (e0 ++ body))).length ≤ I64MAX := by
     obtain ⟨_, hdig, hval⟩ := derivesNat_facts hds
     have hl : ds.length ≤ 15 := by
@@ -165,6 +153,42 @@ theorem loadDoc_complete_stream {id : ObjId} {ibs : Bytes} (ver e0 body : Bytes)
     exact xrefAndTrailer_stream dct size w1 w2 w3 subs _ hX hF hS hW hI hok hrows hwid
   have g2' : (PDF_KW ++ (ver ++ (e0 ++ body))).length ≤ file.length := by
     rw [hfile]; simp only [List.length_append]; omega
+  exact ⟨g0, g1, g2, g2', g3⟩
+
+/-- **Whole files (cross-reference-stream style, one revision, no object streams), every
+spelling.**  The file: `%PDF-` version EOL, ANY body, an `/XRef` stream object in any spelling of
+the indirect-object grammar — dictionary with integer `Size`, `W [w1 w2 w3]` (any widths, not all
+zero), `Index` naming the subsections (or absent), no `Filter`, no `Prev`, no `Encrypt`; data =
+the reference encoding of well-formed rows of ANY type —, ANY bytes (`sp7`), the
+`startxref` section stating the offset of that object, `%%EOF`.  If every number the rows bind is
+bound by a type-1 row and DEFINED by the file at the bound offset, `Reader::read` succeeds and
+the document has the version text, the stream dictionary without `Length`/`W`/`Index` as its
+trailer, and EXACTLY the objects the file defines. -/
+theorem loadDoc_complete_stream {id : ObjId} {ibs : Bytes} (ver e0 body : Bytes) (dct : Dict) (size : Int)
+    (w1 w2 w3 : Nat) (subs : List SSub) (sp7 e1 s1 ds s2 e2 post : Bytes) (val : Nat → Nat × Obj)
+    (hv : ∀ b ∈ ver, b < 128 ∧ notEol b = true) (he0 : IsEol e0)
+    (hX : DerivesIndirect id (.stream dct (encodeSubs w1 w2 w3 subs)) ibs)
+    (hF : dct.has FILTER = false) (hS : dct.get SIZE = some (.int size))
+    (hW : dct.get W_KEY = some (.arr [.int w1, .int w2, .int w3])) (hI : IndexDenotes dct size subs)
+    (hok : SubsOk w1 w2 w3 subs) (hrows : 0 < totalRows subs) (hwid : 0 < w1 + w2 + w3)
+    (hprev : (((dct.remove LENGTH).remove W_KEY).remove INDEX).get PREV = none)
+    (henc : (((dct.remove LENGTH).remove W_KEY).remove INDEX).get ENCRYPT = none)
+    (he1 : IsEol e1) (hs1 : AllSp s1) (hds : DerivesNat (PDF_KW ++ (ver ++ (e0 ++ body))).length ds)
+    (hs2 : AllSp s2) (he2 : IsEol e2) (hpost : IsFileEnd post)
+    (hshort : (STARTXREF ++ (e1 ++ (s1 ++ (ds ++ (s2 ++ e2))))).length ≤ 25)
+    (hmax : (streamTableOf subs).maxId + 1 < 4294967296)
+    (file : Bytes)
+    (hfile : file = (PDF_KW ++ (ver ++ (e0 ++ body))) ++ (ibs ++ (sp7 ++ (STARTXREF ++ (e1 ++ (s1 ++ (ds ++
+      (s2 ++ (e2 ++ (EOF_MARK ++ post))))))))))
+    (hdef : ∀ k e, (streamTableOf subs).get k = some e →
+      ∃ off, e = .normal off (val k).1 ∧ DefinesAt file off k (val k).1 (val k).2) :
+    ∃ L, loadDoc file = .ok L ∧ L.version = ver ∧
+      L.trailer = ((dct.remove LENGTH).remove W_KEY).remove INDEX ∧
+      L.xrefStart = (PDF_KW ++ (ver ++ (e0 ++ body))).length ∧ L.maxId = (streamTableOf subs).maxId ∧
+      (∀ k e, (streamTableOf subs).get k = some e → L.objects.get (k, (val k).1) = some (val k).2) ∧
+      (∀ id : ObjId, ((streamTableOf subs).get id.1 = none ∨ id.2 ≠ (val id.1).1) → L.objects.get id = none) := by
+  obtain ⟨g0, g1, g2, g2', g3⟩ := streamFile_parts ver e0 body dct size w1 w2 w3 subs sp7 e1 s1 ds s2 e2 post hv he0 hX
+    hF hS hW hI hok hrows hwid he1 hs1 hds hs2 he2 hpost hshort file hfile
   exact loadDoc_of_defined file ver _ _ _ _ val g0 g1 g2 g2' g3 hprev henc hmax hdef
 
 end Lopdf.Grammar
